@@ -43,7 +43,7 @@ def gen_cases(rng, tier):
         yield {"kind": "inproc", "name": name, "sched_seed": rng.randrange(10 ** 6), "seed": rng.randrange(10 ** 9),
                "cs_kind": "finite" if name == "fifo-grid" else rng.choice(["mixed", "cont", "finite"]),
                "n_workers": rng.randint(1, 5), "max_events": rng.choice([60, 120]) if tier == "quick" else rng.choice([120, 300]),
-               "style": "distinct", "p_fail": rng.choice([0, 0.03]), "max_t": rng.choice([9, 27]),
+               "style": "distinct", "p_fail": rng.choice([0.05, 0.1]) if name == "dehb" else rng.choice([0, 0.03]), "max_t": rng.choice([1, 2, 3]) if name.startswith("fifo-") else rng.choice([9, 27]),
                "extra": {"brackets": 1 if name == "hb-pasha" else (None if name in ("dehb", "sync-hb") else rng.choice([1, 2, 3]))},
                "perturb_seed": rng.randrange(10 ** 6)}
     # twins created from the very same argument objects (here: the list of allowed configurations): neither may change
@@ -58,7 +58,7 @@ def gen_cases(rng, tier):
         name = MODEL_FREE[i % len(MODEL_FREE)]
         yield {"kind": "hashseed", "name": name, "sched_seed": rng.randrange(10 ** 6), "seed": rng.randrange(10 ** 9),
                "cs_kind": "finite" if name == "fifo-grid" else "mixed", "n_workers": 3, "max_events": 100, "style": "distinct",
-               "p_fail": 0.02, "max_t": 27,
+               "p_fail": 0.02, "max_t": rng.choice([1, 2, 3]) if name.startswith("fifo-") else 27,
                "extra": {"brackets": 1 if name == "hb-pasha" else (None if name in ("dehb", "sync-hb") else 2)}}
     k = 2 if tier == "quick" else 12
     for i in range(k):
